@@ -10,6 +10,8 @@ pub fn verif_root() -> PathBuf {
     std::env::var("VERIF_ROOT").map(PathBuf::from).unwrap_or_else(|_| PathBuf::from("/verif"))
 }
 
+pub static DEEP_QUICK: std::sync::atomic::AtomicBool = std::sync::atomic::AtomicBool::new(false);
+
 #[derive(Clone, Copy, PartialEq, Eq, Debug)]
 pub enum Tier {
     Quick,
@@ -23,8 +25,10 @@ impl Tier {
             Tier::Thorough => "thorough",
         }
     }
+    /// True for the thorough tier — and for the quick tier of the checks whose thorough alphabets are cheap
+    /// enough to run on every change (main.rs sets DEEP_QUICK for them; the evidence keeps the label `quick`).
     pub fn thorough(self) -> bool {
-        self == Tier::Thorough
+        self == Tier::Thorough || DEEP_QUICK.load(std::sync::atomic::Ordering::Relaxed)
     }
 }
 
